@@ -177,7 +177,7 @@ LIT = {"args": ["(1,2)", "()", "([1,2],)", "([1,2],)", "(1,)"], "kwargs": ["{'a'
        "args_iter": ["[(1,2),(3,4)]", "[]", "[(5,)]", "[([1],2)]", "[([1],2)]"],
        "kwargs_iter": ["[{'a':1},{'a':2}]", "[]", "[{'a':[1,2]}]", "[{'a':[1,2]}]"]}
 PATHS = ["ctrlrun.work", "ctrlrun.work2", "ctrlrun.notcoro", "ctrlrun.slow", "ctrlrun.boom",
-         "vpkg.sub.mod.work3"]
+         "vpkg.sub.mod.work3", "ctrlrun.registry.work4"]
 
 
 def draw_value(rng, dest, conv):
